@@ -1,6 +1,6 @@
 (* C13 — proofs about the inlining half of the model (CellInlining, pot_fill). *)
 From Coq Require Import List ZArith Bool Lia Arith.
-From T4V Require Import C13.Model C13.Spec.
+From T4V Require Import Base.Scalar C13.Model C13.Spec.
 Import ListNotations.
 Open Scope Z_scope.
 
@@ -441,4 +441,19 @@ Proof.
     + intros j cj _ [].
     + apply (Hc _ _ Hk). right. apply lookup_keys.
       apply (inline_loop_dom _ _ _ _ _ H k). congruence.
+Qed.
+
+(* with the score: whatever --max-inline-score selects *)
+Theorem inline_score_den {T} (S : Base.Scalar.Scalar T) rank sigma fuel max_score dic dic' :
+  acyclic rank dic -> inline_cells_score S fuel max_score dic = Ok dic' ->
+  acyclic rank dic' /\
+  (forall k, lookup k dic <> None <-> lookup k dic' <> None) /\
+  (forall k, lookup k dic <> None -> cden rank sigma dic' k = cden rank sigma dic k).
+Proof.
+  intros Hac H. unfold inline_cells_score in H.
+  destruct (find_occurrences dic) as [occ|e]; [|discriminate].
+  destruct occ as [|o occ'].
+  - injection H as <-. split; [exact Hac|]. split; [tauto|reflexivity].
+  - destruct (select_to_inline S max_score dic (o :: occ')) as [ti|e]; [|discriminate].
+    apply (inline_den rank sigma fuel ti dic dic' Hac H).
 Qed.
